@@ -99,6 +99,7 @@ type concretizer struct {
 	mediaSeg []byte
 	media2  []byte
 	nextCh  int
+	cur     assetInfo // asset of the request being built (livesim2 / patch)
 }
 
 func newConcretizer(seed int64, repo string) (*concretizer, error) {
@@ -222,6 +223,10 @@ var drmNames = []string{"EZDRM-1-key-cbcs-test", "EZDRM-2-keys-cbcs-test"}
 func (c *concretizer) value(key, class string) string {
 	switch {
 	case floatKeys[key]:
+		if key == "ato" && class == "float" && c.rng.Intn(2) == 0 {
+			// boundary: exactly the segment duration of the asset (chunk duration = segment duration - ato = 0)
+			return fmt.Sprintf("%.1f", float64(c.cur.segDurMS)/1000)
+		}
 		if class == "typical" {
 			switch key {
 			case "ato":
@@ -277,8 +282,11 @@ func (c *concretizer) value(key, class string) string {
 		case "one":
 			return "[{cycle:1,rsq:0,code:404}]"
 		case "huge":
+			// NB: cycles of ~10^9..10^10 s (cycle:3000000000, cycle:4294967296) are not generated: calcStatusCode walks
+			// the segments of the whole cycle, a finite computation of several seconds per request (measured 1.4-7 s),
+			// which a wall-time bound cannot tell from non-termination
 			return c.pick("[{cycle:"+hugeStr+",rsq:0,code:404}]", "[{cycle:30,rsq:"+hugeStr+",code:404}]",
-				"[{cycle:30,rsq:0,code:99999}]", "[{cycle:4294967296,rsq:0,code:404}]", "[{cycle:3000000000,rsq:0,code:404}]")
+				"[{cycle:30,rsq:0,code:99999}]", "[{cycle:30,rsq:0,code:"+hugeStr+"}]")
 		case "nonnum":
 			return c.pick("[{cycle:abc,rsq:0,code:404}]", "[{cycle:30,rsq:x,code:404}]", "[{cycle:30,rsq:0,code:four}]")
 		case "float":
@@ -400,7 +408,7 @@ func (c *concretizer) livesimPath(a absReq, kvs []kv) (string, string) {
 		}
 		return "", false
 	}
-	ai := knownAssets[c.rng.Intn(len(knownAssets))]
+	ai := c.cur
 	segS := int64(ai.segDurMS / 1000)
 	nowS := c.baseMS / 1000
 	snr := int64(0)
@@ -748,6 +756,7 @@ func (c *concretizer) concretize(id int, a absReq, rep int) job {
 		j.Abs.Parts = []part{}
 	}
 	j.Ctx = []part{}
+	c.cur = knownAssets[c.rng.Intn(len(knownAssets))]
 	for _, p := range tailCtx(a.Ep, a.Tail) {
 		dup := false
 		for _, q := range a.Parts {
